@@ -268,3 +268,192 @@ def desugar_adaptors(body, crate, max_rounds=8):
     if used:
         cur.inlined_from = set(getattr(body, 'inlined_from', set())) | used
     return cur
+
+
+# ---------------------------------------------------------------------------------------------------------------------
+# Decision splitting (tail duplication): when the arms of a two-way (or n-way) selection inside a loop only assign
+# values (no calls) and re-join, the rest of the iteration is duplicated per arm so that correlated selections (which
+# tree grows, which one connects, the flag that says so) stay correlated; switches on values that are constant in a
+# copy are folded and dead blocks emptied.  Pure CFG duplication + folding of constant switches: semantics preserving.
+def _retarget(term, old, new):
+    t = dict(term)
+    k = t['k']
+    if k == 'goto' and t['target'] == old:
+        t['target'] = new
+    elif k == 'switch':
+        t['targets'] = [[v, (new if b == old else b)] for v, b in t['targets']]
+        if t['otherwise'] == old:
+            t['otherwise'] = new
+    elif k in ('drop', 'assert', 'call'):
+        if t.get('target') == old:
+            t['target'] = new
+    elif k == 'other':
+        t['succ'] = [(new if s == old else s) for s in t.get('succ', [])]
+    return t
+
+
+def _remap_term(term, m):
+    t = dict(term)
+    k = t['k']
+    if k == 'goto':
+        t['target'] = m.get(t['target'], t['target'])
+    elif k == 'switch':
+        t['targets'] = [[v, m.get(b, b)] for v, b in t['targets']]
+        t['otherwise'] = m.get(t['otherwise'], t['otherwise'])
+    elif k in ('drop', 'assert', 'call'):
+        if t.get('target') is not None:
+            t['target'] = m.get(t['target'], t['target'])
+    elif k == 'other':
+        t['succ'] = [m.get(s, s) for s in t.get('succ', [])]
+    return t
+
+
+def find_decision_join(fn, skip=frozenset()):
+    """(join block, [pred blocks], innermost loop) of the first value-selection join inside a loop, or None"""
+    from .engine import Fn  # noqa
+    loops = fn.loops()
+    if not loops:
+        return None
+    pred = fn.b.preds()
+    reach = fn.reachable(0)
+    dom = fn.dominators()
+    for J in sorted(reach):
+        if J in skip or fn.blocks[J]['cleanup']:
+            continue
+        inl = [L for L in loops if J in L['body'] and J != L['header']]
+        if not inl:
+            continue
+        L = min(inl, key=lambda l: len(l['body']))
+        ps = [p for p in pred[J] if p in reach and p in L['body']]
+        if len(ps) < 2 or len(ps) > 4:
+            continue
+        # every pred arm is a straight line of assignment-only blocks hanging off one switch
+        heads = set()
+        assigned = []
+        ok = True
+        for p in ps:
+            cur = p
+            locs = set()
+            n = 0
+            while True:
+                blk = fn.blocks[cur]
+                t = blk['term']
+                if t['k'] == 'switch':
+                    heads.add(cur)
+                    break
+                if t['k'] != 'goto' or n > 4:
+                    ok = False
+                    break
+                for st in blk['stmts']:
+                    if st['k'] == 'assign':
+                        locs.add(st['place']['l'])
+                pp = [q for q in pred[cur] if q in reach]
+                if len(pp) != 1:
+                    ok = False
+                    break
+                cur = pp[0]
+                n += 1
+            if not ok:
+                break
+            assigned.append(locs)
+        if not ok or len(heads) != 1:
+            continue
+        common = set.intersection(*assigned) if assigned else set()
+        # something other than unit temporaries is selected
+        common = {l for l in common if fn.b.local_ty(l) != '()'}
+        if not common:
+            continue
+        return J, ps, L
+    return None
+
+
+def split_decisions(body, max_splits=2, max_blocks=2500):
+    from .engine import Fn
+    cur = body
+    nsplit = 0
+    skip = set()
+    for _ in range(max_splits):
+        fn = Fn(cur)
+        hit = find_decision_join(fn, frozenset(skip))
+        if hit is None:
+            break
+        J, ps, L = hit
+        H = L['header']
+        region = fn.reachable(J, stop=frozenset([H]) | frozenset(x for x in range(fn.nb) if x not in L['body']))
+        region = {x for x in region if x in L['body'] and x != H}
+        if len(cur.blocks) + len(region) * (len(ps) - 1) > max_blocks:
+            break
+        j = copy.deepcopy(cur.j)
+        for p in ps[1:]:
+            base = len(j['blocks'])
+            order = sorted(region)
+            m = {x: base + k for k, x in enumerate(order)}
+            for x in order:
+                nb = copy.deepcopy(j['blocks'][x])
+                nb['term'] = _remap_term(nb['term'], m)
+                j['blocks'].append(nb)
+            # the arm ending in p now continues in its own copy
+            j['blocks'][p]['term'] = _retarget(j['blocks'][p]['term'], J, m[J])
+        cur = Body(j, body.crate)
+        nsplit += 1
+        cur = fold_constant_switches(cur)
+        skip.add(J)
+    if nsplit:
+        cur.inlined_from = set(getattr(body, 'inlined_from', set())) | {'decision-split:%s x%d' % (body.path, nsplit)}
+    return cur
+
+
+def fold_constant_switches(body, rounds=6):
+    from .engine import Fn
+    cur = body
+    for _ in range(rounds):
+        fn = Fn(cur)
+        reach = fn.reachable(0)
+        j = None
+        for b in sorted(reach):
+            blk = cur.blocks[b]
+            if blk['cleanup'] or blk['term']['k'] != 'switch':
+                continue
+            si = fn.switch_info(b)
+            if si is None:
+                continue
+            terms, tmap, other = si
+            if len(terms) != 1:
+                continue
+            n = next(iter(terms))
+            val = None
+            if n[0] == 'const' and n[1] in ('true', 'false'):
+                val = '1' if n[1] == 'true' else '0'
+            elif n[0] == 'const' and n[1].lstrip('-').isdigit():
+                val = n[1]
+            elif n[0] == 'discr' and len(n[1]) == 1:
+                a = next(iter(n[1]))
+                if a[0] == 'agg':
+                    adt = cur.crate.adts.get(a[1])
+                    if adt is not None and adt.get('is_enum'):
+                        names = [v['name'] for v in adt['variants']]
+                        if a[2] in names:
+                            val = str(names.index(a[2]))       # fieldless / default discriminants only
+                            if any(v.get('discr') is not None for v in adt['variants']):
+                                val = None
+            if val is None:
+                continue
+            tgt = tmap.get(val, other)
+            if j is None:
+                j = copy.deepcopy(cur.j)
+            j['blocks'][b]['term'] = {'k': 'goto', 'target': tgt}
+        if j is None:
+            break
+        cur = Body(j, body.crate)
+    # empty the blocks that became unreachable
+    fn = Fn(cur)
+    reach = fn.reachable(0)
+    dead = [b for b in range(len(cur.blocks)) if b not in reach and not cur.blocks[b]['cleanup'] and
+            (cur.blocks[b]['stmts'] or cur.blocks[b]['term']['k'] != 'unreachable')]
+    if dead:
+        j = copy.deepcopy(cur.j)
+        for b in dead:
+            j['blocks'][b]['stmts'] = []
+            j['blocks'][b]['term'] = {'k': 'unreachable'}
+        cur = Body(j, body.crate)
+    return cur
